@@ -69,6 +69,12 @@ def value_for(col, variant, row):
         body = ['0023003CT6', '0001000', '0158012ABCDEFGHIJKL0165001M', '0002005a,b"c'][vi % 4]
         return body
     base = 'ABCDEFGHJKLMNPQRSTUVWXYZ0123456789'
+    if vk == 'blank':
+        # present-but-blank looking cells: all spaces (fixed: exactly the width), 'None', '0' * width
+        if kind == 'fixed':
+            return [' ' * w, ('None' + ' ' * w)[:w], '0' * w][vi % 3]
+        if kind in ('var', 'pdsval'):
+            return [' ', '   ', 'None', '0', '00'][vi % 5]
     if kind == 'fixed':
         txt = (base[salt:] + base * 3)[:w]
         if vk == 'meta':
@@ -212,7 +218,8 @@ def enumerate_cases(tier, seed):
     de_cols = [c for c in cols if c != 'MTI' and not c.startswith('PDS') and c != 'DE48']
     pds_cols = [c for c in cols if c.startswith('PDS')]
     cases = []
-    variants = [['plain', i] for i in range(5)] + [['meta', i] for i in range(len(META) * 2)]
+    variants = [['plain', i] for i in range(5)] + [['meta', i] for i in range(len(META) * 2)] + \
+        [['blank', i] for i in range(5)]
 
     def add(c, rows, variant, omit=0, envs=None):
         for enc, blocked, entry in (envs or [('latin_1', True, 'func')]):
